@@ -18,7 +18,7 @@ func init() {
 		Explanation: "(R1) lease typestate on the CFG of the ping-pong pools' NewStream: from the point a client is leased (taken out of the idle list or created and counted) every path to a return either binds it to the stream (stream.AddEventListener(client), whose single OnDestroyStream returns or closes it) or is the refused/failed branch on which no client was leased; nothing that can refuse the request (breaker check) may follow the lease. " +
 			"(R2) dirty clients are closed: every boolean field a pool client sets in OnResetStream/OnGoAway must be read in its OnDestroyStream, and on the flag-true edge a Close precedes any re-pooling; a flag that is written and never read anywhere is reported outright. " +
 			"(R3) books under the lock: every access to the idle list happens with the pool mutex held (lockset on the CFG; *Locked helpers are checked at their call sites); the close-event handler removes the client from the idle list, sets closed and decrements the client count inside one critical section; re-pooling is guarded by !closed. " +
-			"(R4) the client count incremented before connecting is decremented on every path that does not hand out a client. (R5) stream destroy listeners run once (CAS). (R4, alternative) a reserve-before-dial design is accepted only when the slot is released on the refusal path and on both connect-failure events. (R7) in xStream.ResetStream a non-deferred removal from clientStreams can precede BaseStream.ResetStream and no deferred removal exists. (R8) the closing set of each ping-pong pool (reasons under which OnResetStream raises its close flag) is computed from SSA; every ResetStream(r) site of the package has r in the closing set or lies where the connection is known closed (reason handed down by the connection-level Reset, read from resetReason, or under err == ErrConnectionHasClosed); client.OnEvent calls Reset only with CheckReasonError's reason on its not-ok edge. (R3 close-handler-unconditional) for every closing event no path through the pool client's connection-event handler avoids marking the client closed, directly or through a helper that does so unconditionally.",
+			"(R4) the client count incremented before connecting is decremented on every path that does not hand out a client. (R5) stream destroy listeners run once (CAS). (R4, alternative) a reserve-before-dial design is accepted only when the slot is released on the refusal path and on both connect-failure events. (R7) in xStream.ResetStream a non-deferred removal from clientStreams can precede BaseStream.ResetStream and no deferred removal exists. (R8) the closing set of each ping-pong pool (reasons under which OnResetStream raises its close flag) is computed from SSA; every ResetStream(r) site of the package has r in the closing set or lies where the connection is known closed (reason handed down by the connection-level Reset, read from resetReason, or under err == ErrConnectionHasClosed); client.OnEvent calls Reset only with CheckReasonError's reason on its not-ok edge. (R3 close-handler-unconditional) for every closing event no path through the pool client's connection-event handler avoids marking the client closed, directly or through a helper that does so unconditionally. (R3 element-access) every IndexAddr use of a value loaded from the idle-list field is under the pool mutex.",
 		Run: runC09,
 	})
 }
@@ -44,6 +44,7 @@ func runC09(c *Ctx) {
 	c.Rule("C09.R8", "a client stream is reset only with a reason for which the pool closes the connection, or where the connection is known to be closed", 6)
 	defer c09ResetCloses(c, "C09.R8")
 	defer c09CloseHandlerUnconditional(c)
+	defer c09IdleListNotAliased(c)
 	c.NotDecided = append(c.NotDecided, "equality of counters with the truth over arbitrary histories", "idle-timeout / keep-alive behaviour", "the multiplex and binding pools (connections are shared or bound by design, not leased)")
 	c.Assumptions = append(c.Assumptions, "connection.Close delivers its close event synchronously to the registered listeners (so `closed` is set before OnDestroyStream re-pools)", "sync.Mutex semantics")
 
@@ -52,7 +53,7 @@ func runC09(c *Ctx) {
 		c09Flags(c, p)
 		c09Locks(c, p)
 	}
-	c09Count(c)
+	c09Count(c, "C09.R4")
 	c09NoCloseUnderLock(c)
 	if fn := c.M("pkg/stream", "BaseStream", "DestroyStream"); fn == nil {
 		c.Unresolved("C09.R5", "(*BaseStream).DestroyStream")
@@ -430,10 +431,10 @@ func c09Locks(c *Ctx, p pingPool) {
 }
 
 // R4: http pool counts the client before connecting.
-func c09Count(c *Ctx) {
+func c09Count(c *Ctx, rule string) {
 	fn := c.M("pkg/stream/http", "connPool", "getAvailableClient")
 	if fn == nil {
-		c.Unresolved("C09.R4", "(*connPool).getAvailableClient")
+		c.Unresolved(rule, "(*connPool).getAvailableClient")
 		return
 	}
 	fk := funcKey(fn)
@@ -462,7 +463,7 @@ func c09Count(c *Ctx) {
 		}
 	})
 	if inc == nil {
-		c.Fail("C09.R4", fk+":count-inc", fn.Pos(), "no totalClientCount increment found")
+		c.Fail(rule, fk+":count-inc", fn.Pos(), "no totalClientCount increment found")
 		return
 	}
 	// every path from inc to a return passes a decrement, unless it goes through the `client != nil && reason == ""` edges
@@ -488,11 +489,11 @@ func c09Count(c *Ctx) {
 		}
 		return true
 	})
-	c.Check("C09.R4", fk+":count-balanced", inc.Pos(), bad == nil, "the count taken before connecting is given back on every path that does not hand out a client", "totalClientCount is incremented before connecting but a failure path returns without decrementing it: the pool drifts towards permanent Overflow")
+	c.Check(rule, fk+":count-balanced", inc.Pos(), bad == nil, "the count taken before connecting is given back on every path that does not hand out a client", "totalClientCount is incremented before connecting but a failure path returns without decrementing it: the pool drifts towards permanent Overflow")
 	// pingpong: Inc only on success
 	pf := c.M("pkg/stream/xprotocol", "poolPingPong", "GetActiveClient")
 	if pf == nil {
-		c.Unresolved("C09.R4", "(*poolPingPong).GetActiveClient")
+		c.Unresolved(rule, "(*poolPingPong).GetActiveClient")
 		return
 	}
 	okInc, nInc := true, 0
@@ -523,12 +524,12 @@ func c09Count(c *Ctx) {
 		}
 	})
 	if okInc && nInc == 1 {
-		c.Pass("C09.R4", funcKey(pf)+":count-on-success", pf.Pos(), "the client is counted only when it was created successfully")
+		c.Pass(rule, funcKey(pf)+":count-on-success", pf.Pos(), "the client is counted only when it was created successfully")
 		return
 	}
 	// alternative design: reserve the slot before dialing and give it back on every failure
 	why := c09ReserveBeforeDial(c, pf)
-	c.Check("C09.R4", funcKey(pf)+":count-on-success", pf.Pos(), why == "", "the slot is reserved before dialing and released on refusal, connect failure and connect timeout", "the ping-pong pool counts a client that was not created (or counts it on several paths)"+why)
+	c.Check(rule, funcKey(pf)+":count-on-success", pf.Pos(), why == "", "the slot is reserved before dialing and released on refusal, connect failure and connect timeout", "the ping-pong pool counts a client that was not created (or counts it on several paths)"+why)
 }
 
 // c09ReserveBeforeDial: "" when GetActiveClient reserves one slot before newActiveClient and every way of not getting a
